@@ -348,6 +348,309 @@ pub proof fn lemma_alloc(o: &Allocator, n: &Allocator, id: u32, now: bool)
     }
 }
 
+// ---------------------------------------------------------------- Allocator::kill
+pub open spec fn kill_pos(r: Result<(), (WrongGeneration, usize)>, d: Seq<Entity>) -> nat {
+    match r { Ok(_) => d.len(), Err((_, k)) => k as nat }
+}
+
+pub open spec fn all_legit(o: &Allocator, d: Seq<Entity>) -> bool {
+    forall|j: int| 0 <= j < d.len() ==> o.abs().legit(#[trigger] d[j])
+}
+
+// state of the batch-kill loop after n handles: the concrete allocator `s` mirrors kill_fold(d, n)
+pub open spec fn kill_loop_inv(o: &Allocator, s: &Allocator, d: Seq<Entity>, n: nat) -> bool {
+    &&& n <= d.len()
+    &&& s.wf()
+    &&& s.headroom_n(2)
+    &&& o.abs().kill_ok_upto(d, n)
+    &&& s.abs().core_eq(o.abs().kill_fold(d, n))
+    &&& s.cache == o.cache
+    &&& forall|i: u32| !in_prefix(d, n, i) ==> #[trigger] s.gid(i as int) == o.gid(i as int)
+    &&& forall|i: u32| in_prefix(d, n, i) ==> #[trigger] s.gid(i as int) < 0
+}
+// C17 part: every unoccupied index below the counter is on the free list or among the handles killed so far
+pub open spec fn kill_loop_complete(o: &Allocator, s: &Allocator, d: Seq<Entity>, n: nat) -> bool {
+    o.wf_complete() ==> forall|i: u32| #![trigger s.occ(i)] (i as int) < s.max_id@ && !s.occ(i) && !in_prefix(d, n, i) ==> s.cache@.contains(i)
+}
+
+pub proof fn lemma_kill_init(o: &Allocator, d: Seq<Entity>)
+    requires o.wf(), o.headroom(),
+    ensures kill_loop_inv(o, o, d, 0), kill_loop_complete(o, o, d, 0),
+{
+    assert forall|i: u32| !in_prefix(d, 0, i) by {}
+    assert(o.abs().kill_fold(d, 0) == o.abs());
+}
+
+pub proof fn lemma_kill_fold_hw(s: AState, d: Seq<Entity>, n: nat)
+    requires n <= d.len(),
+    ensures forall|i: u32| #![trigger s.kill_fold(d, n).hwv(i)] s.kill_fold(d, n).hwv(i) == s.hwv(i),
+{
+    lemma_kill_fold_frame(s, d, n);
+}
+
+// the current handle of the loop is alive in the concrete state iff it is current in the folded abstract state
+pub proof fn lemma_kill_cur(o: &Allocator, s: &Allocator, d: Seq<Entity>, idx: nat)
+    requires o.wf(), all_legit(o, d), idx < d.len(), kill_loop_inv(o, s, d, idx),
+    ensures
+        s.alive_spec(d[idx as int]) == o.abs().kill_fold(d, idx).current(d[idx as int]),
+        s.abs().legit(d[idx as int]),
+        s.abs().current(d[idx as int]) == o.abs().kill_fold(d, idx).current(d[idx as int]),
+{
+    let e = d[idx as int];
+    let f = o.abs().kill_fold(d, idx);
+    lemma_kill_fold_frame(o.abs(), d, idx);
+    assert(o.abs().legit(e));
+    assert(s.abs().hw =~= f.hw);
+    assert(s.abs().hwv(e.0) == f.hwv(e.0));
+    assert(f.hwv(e.0) == o.abs().hwv(e.0));
+    lemma_alive_spec_is_current(s, e);
+}
+
+pub proof fn lemma_kill_stop(o: &Allocator, s: &Allocator, d: Seq<Entity>, idx: nat)
+    requires o.wf(), all_legit(o, d), idx < d.len(), kill_loop_inv(o, s, d, idx), !s.alive_spec(d[idx as int]),
+    ensures o.abs().kill_stops_at(d, idx), (d[idx as int].0 as int) < s.generations@.len(),
+{
+    lemma_kill_cur(o, s, d, idx);
+    lemma_legit_in_range(s, d[idx as int]);
+}
+
+pub proof fn lemma_kill_iter(o: &Allocator, p: &Allocator, n: &Allocator, d: Seq<Entity>, idx: nat)
+    requires
+        o.wf(), o.headroom(), all_legit(o, d), idx < d.len(),
+        kill_loop_inv(o, p, d, idx), kill_loop_complete(o, p, d, idx),
+        p.alive_spec(d[idx as int]),
+        n.alive@ == p.alive@.remove(d[idx as int].0),
+        n.raised@ == p.raised@.remove(d[idx as int].0),
+        n.killed@ == p.killed@.remove(d[idx as int].0),
+        n.cache == p.cache, n.max_id == p.max_id,
+        gens_extend_except(p, n, d[idx as int].0 as int),
+        (d[idx as int].0 as int) < n.generations@.len(),
+        n.generations@[d[idx as int].0 as int].0 is Some,
+        zid(n.generations@[d[idx as int].0 as int]) == (if p.raised@.contains(d[idx as int].0) { p.gid(d[idx as int].0 as int) - 1 } else { -p.gid(d[idx as int].0 as int) }),
+    ensures
+        kill_loop_inv(o, n, d, idx + 1), kill_loop_complete(o, n, d, idx + 1),
+{
+    let e = d[idx as int];
+    let i = e.0;
+    let f = o.abs().kill_fold(d, idx);
+    let f2 = o.abs().kill_fold(d, idx + 1);
+    lemma_kill_cur(o, p, d, idx);
+    lemma_kill_fold_frame(o.abs(), d, idx);
+    lemma_kill_fold_frame(o.abs(), d, idx + 1);
+    assert(f2 == f.kill_one(e));
+    assert(f.current(e));
+    // i is occupied in p and was not touched by the prefix
+    assert(p.occ(i)) by { assert(p.abs().occ(i)); }
+    assert(!in_prefix(d, idx, i)) by {
+        if in_prefix(d, idx, i) { assert(!f.alive.contains(i) && !f.raised.contains(i)); }
+    }
+    assert(p.gid(i as int) == o.gid(i as int));
+    assert(p.alive@.contains(i) <==> p.gid(i as int) > 0);
+    if p.raised@.contains(i) { assert(p.gid(i as int) <= 0); }
+    lemma_gid_frame(p, n, i as int);
+    assert forall|k: int| k != i as int implies #[trigger] n.gid(k) == p.gid(k) by {}
+    assert(n.gid(i as int) < 0);
+    // ---- kill_ok_upto(idx + 1)
+    assert forall|j: nat| j < idx + 1 implies (#[trigger] o.abs().kill_fold(d, j)).current(d[j as int]) by {
+        if j == idx { } else { assert(o.abs().kill_fold(d, j).current(d[j as int])); }
+    }
+    // ---- wf(n)
+    assert forall|k: int| 0 <= k < n.generations@.len() implies ((#[trigger] n.generations@[k]).0 is Some ==> zid(n.generations@[k]) != 0) by {
+        if k != i as int && k < p.generations@.len() { assert(n.generations@[k] == p.generations@[k]); }
+    }
+    assert forall|j: u32| #![trigger n.alive@.contains(j)] n.alive@.contains(j) <==> n.gid(j as int) > 0 by {
+        assert(p.alive@.contains(j) <==> p.gid(j as int) > 0);
+        if j != i { assert(n.gid(j as int) == p.gid(j as int)); }
+    }
+    assert forall|j: u32| #![trigger n.raised@.contains(j)] n.raised@.contains(j) implies n.gid(j as int) <= 0 && (j as int) < n.max_id@ by {
+        assert(p.raised@.contains(j) && j != i);
+        assert(n.gid(j as int) == p.gid(j as int));
+    }
+    assert forall|j: u32| #![trigger n.gid(j as int)] (j as int) >= n.max_id@ implies n.gid(j as int) == 0 by {
+        assert(p.gid(j as int) == 0);
+        if j == i {
+            if p.alive@.contains(i) { assert(p.gid(i as int) > 0); }
+            assert(p.raised@.contains(i));
+            assert((i as int) < p.max_id@);
+        }
+        assert(n.gid(j as int) == p.gid(j as int));
+    }
+    assert forall|j: u32| #![trigger n.killed@.contains(j)] n.killed@.contains(j) implies n.occ(j) by {
+        assert(p.killed@.contains(j) && j != i);
+        assert(p.occ(j));
+    }
+    assert forall|k: int| 0 <= k < n.cache@.len() implies {
+            let j = #[trigger] n.cache@[k];
+            (j as int) < n.max_id@ && !n.occ(j) && n.gid(j as int) < 0 } by {
+        let j = p.cache@[k];
+        assert((j as int) < p.max_id@ && !p.occ(j) && p.gid(j as int) < 0);
+        assert(j != i);
+        assert(n.gid(j as int) == p.gid(j as int));
+    }
+    assert(n.wf());
+    // ---- headroom
+    assert forall|k: int| -(i32::MAX - 2) < #[trigger] n.gid(k) && n.gid(k) < i32::MAX - 2 by {
+        assert(-(i32::MAX - 2) < p.gid(k) && p.gid(k) < i32::MAX - 2);
+        assert(-(i32::MAX - 3) < o.gid(i as int) && o.gid(i as int) < i32::MAX - 3);
+    }
+    // ---- abstract state
+    assert forall|j: u32| n.hw(j) == p.hw(j) by {
+        if j != i { assert(n.gid(j as int) == p.gid(j as int)); }
+    }
+    assert forall|j: u32| #[trigger] (n.abs().hw)(j) == (f2.hw)(j) by {
+        assert(n.hw(j) == p.hw(j));
+        assert((p.abs().hw)(j) == (f.hw)(j));
+    }
+    assert(n.abs().hw =~= f2.hw);
+    assert(n.abs().alive =~= f2.alive);
+    assert(n.abs().raised =~= f2.raised);
+    assert(n.abs().killed =~= f2.killed);
+    // ---- gid frame / killed ones negative
+    assert forall|j: u32| !in_prefix(d, idx + 1, j) implies #[trigger] n.gid(j as int) == o.gid(j as int) by {
+        lemma_in_prefix_step(d, idx + 1, j);
+        assert(j != i && !in_prefix(d, idx, j));
+        assert(p.gid(j as int) == o.gid(j as int));
+        assert(n.gid(j as int) == p.gid(j as int));
+    }
+    assert forall|j: u32| in_prefix(d, idx + 1, j) implies #[trigger] n.gid(j as int) < 0 by {
+        lemma_in_prefix_step(d, idx + 1, j);
+        if j != i { assert(in_prefix(d, idx, j)); assert(p.gid(j as int) < 0); assert(n.gid(j as int) == p.gid(j as int)); }
+    }
+    // ---- completeness (C17)
+    if o.wf_complete() {
+        assert forall|j: u32| #![trigger n.occ(j)] (j as int) < n.max_id@ && !n.occ(j) && !in_prefix(d, idx + 1, j) implies n.cache@.contains(j) by {
+            lemma_in_prefix_step(d, idx + 1, j);
+            assert(j != i && !in_prefix(d, idx, j));
+            assert(!p.occ(j));
+        }
+    }
+}
+
+pub proof fn lemma_ids_prefix(d: Seq<Entity>, n: nat, i: u32)
+    requires n <= d.len(),
+    ensures ids(d.subrange(0, n as int)).contains(i) == in_prefix(d, n, i),
+{
+    let a = ids(d.subrange(0, n as int));
+    if a.contains(i) {
+        let k = choose|k: int| 0 <= k < a.len() && a[k] == i;
+        assert(d[k].0 == i);
+    }
+    if in_prefix(d, n, i) {
+        let k = choose|k: int| 0 <= k < n && k < d.len() && (#[trigger] d[k]).0 == i;
+        assert(a[k] == i);
+    }
+}
+
+// after the loop stopped at idx (idx == d.len(): ran to the end): if the free list was extended by the ids
+// of d[0..idx], the result is well formed, pins the free list, and keeps it complete
+pub proof fn lemma_kill_done(o: &Allocator, m: &Allocator, n: &Allocator, d: Seq<Entity>, idx: nat)
+    requires
+        o.wf(), o.headroom(), all_legit(o, d), idx <= d.len(),
+        kill_loop_inv(o, m, d, idx), kill_loop_complete(o, m, d, idx),
+        n.generations == m.generations, n.alive == m.alive, n.raised == m.raised, n.killed == m.killed, n.max_id == m.max_id,
+        n.cache.wf(),
+    ensures
+        n.abs().core_eq(o.abs().kill_fold(d, idx)),
+        n.cache@ == m.cache@ + ids(d.subrange(0, idx as int)) ==> {
+            &&& n.wf()
+            &&& n.abs().free == o.abs().killed_free(d, idx)
+            &&& o.wf_complete() ==> n.wf_complete()
+        },
+        n.cache == m.cache ==> n.wf(),
+{
+    let f = o.abs().kill_fold(d, idx);
+    lemma_kill_fold_frame(o.abs(), d, idx);
+    lemma_kill_fold_distinct(o.abs(), d, idx);
+    assert forall|k: int| n.gid(k) == m.gid(k) by {}
+    assert(n.abs().hw =~= m.abs().hw);
+    assert(n.abs().alive =~= f.alive && n.abs().raised =~= f.raised && n.abs().killed =~= f.killed);
+    assert(n.abs().hw =~= f.hw);
+    let a = ids(d.subrange(0, idx as int));
+    assert forall|j: u32| #![trigger n.alive@.contains(j)] n.alive@.contains(j) <==> n.gid(j as int) > 0 by {
+        assert(m.alive@.contains(j) <==> m.gid(j as int) > 0);
+    }
+    assert forall|j: u32| #![trigger n.raised@.contains(j)] n.raised@.contains(j) implies n.gid(j as int) <= 0 && (j as int) < n.max_id@ by {
+        assert(m.raised@.contains(j));
+    }
+    assert forall|j: u32| #![trigger n.gid(j as int)] (j as int) >= n.max_id@ implies n.gid(j as int) == 0 by {
+        assert(m.gid(j as int) == 0);
+    }
+    assert forall|j: u32| #![trigger n.killed@.contains(j)] n.killed@.contains(j) implies n.occ(j) by {
+        assert(m.killed@.contains(j)); assert(m.occ(j));
+    }
+    if n.cache == m.cache {
+        assert forall|k: int| 0 <= k < n.cache@.len() implies {
+                let j = #[trigger] n.cache@[k];
+                (j as int) < n.max_id@ && !n.occ(j) && n.gid(j as int) < 0 } by {
+            let j = m.cache@[k];
+            assert((j as int) < m.max_id@ && !m.occ(j) && m.gid(j as int) < 0);
+        }
+        assert(n.wf());
+    }
+    if n.cache@ == m.cache@ + a {
+    assert forall|k: int| 0 <= k < n.cache@.len() implies {
+            let j = #[trigger] n.cache@[k];
+            (j as int) < n.max_id@ && !n.occ(j) && n.gid(j as int) < 0 } by {
+        if k < m.cache@.len() {
+            let j = m.cache@[k];
+            assert(n.cache@[k] == j);
+            assert((j as int) < m.max_id@ && !m.occ(j) && m.gid(j as int) < 0);
+        } else {
+            let y = k - m.cache@.len();
+            assert(n.cache@[k] == a[y]);
+            assert(a[y] == d[y].0);
+            let j = d[y].0;
+            assert(in_prefix(d, idx, j));
+            assert(m.gid(j as int) < 0);
+            assert(!f.alive.contains(j) && !f.raised.contains(j));
+            assert(m.abs().alive.contains(j) == f.alive.contains(j));
+            assert(m.abs().raised.contains(j) == f.raised.contains(j));
+            assert(!m.occ(j));
+            // j was occupied in o, hence below the counter
+            assert(o.abs().occ(j));
+            assert(o.occ(j));
+            if o.alive@.contains(j) { assert(o.gid(j as int) > 0); if (j as int) >= o.max_id@ { assert(o.gid(j as int) == 0); } }
+            assert((j as int) < o.max_id@);
+            assert(m.abs().max_id == f.max_id);
+        }
+    }
+    assert forall|k: int, l: int| 0 <= k < l < n.cache@.len() implies n.cache@[k] != n.cache@[l] by {
+        let ml = m.cache@.len();
+        if l < ml {
+            assert(n.cache@[k] == m.cache@[k] && n.cache@[l] == m.cache@[l]);
+        } else if k < ml {
+            let y = l - ml;
+            assert(n.cache@[l] == a[y] && a[y] == d[y].0);
+            assert(n.cache@[k] == m.cache@[k]);
+            assert(o.cache@[k] == m.cache@[k]);
+            assert(!o.occ(o.cache@[k]));
+            assert(o.abs().occ(d[y].0));
+            assert(o.occ(d[y].0));
+        } else {
+            let x = k - ml; let y = l - ml;
+            assert(n.cache@[k] == a[x] && n.cache@[l] == a[y]);
+            assert(a[x] == d[x].0 && a[y] == d[y].0);
+        }
+    }
+    assert(n.wf());
+    assert(n.abs().free =~= o.abs().free + a);
+    if o.wf_complete() {
+        assert forall|j: u32| #![trigger n.occ(j)] (j as int) < n.max_id@ && !n.occ(j) implies n.cache@.contains(j) by {
+            assert(!m.occ(j));
+            if in_prefix(d, idx, j) {
+                let x = choose|x: int| 0 <= x < idx && x < d.len() && (#[trigger] d[x]).0 == j;
+                assert(a[x] == j);
+                assert(n.cache@[m.cache@.len() + x] == j);
+            } else {
+                assert(m.cache@.contains(j));
+                let x = choose|x: int| 0 <= x < m.cache@.len() && m.cache@[x] == j;
+                assert(n.cache@[x] == j);
+            }
+        }
+    }
+    }
+}
+
 // under wf, an occupied index's comparison generation is its high-water generation
 //@props C02
 pub proof fn lemma_cur_gen_is_hw(a: &Allocator, i: u32)
